@@ -213,7 +213,8 @@ PROPERTY = {
         explanation='per-layer contracts of the cost hand-over of MPSConv2d/MPSConv1d/MPSLinear: names and values shown to the cost function, '
                     'exact bit-cost under one-hot sampling for per-layer search, per-channel clause recorded as a known finding if refuted; '
                     'the aggregation over layers is in contracts/wrappers.py',
-        not_decided=['which quantizer feeds which layer (graph pass register_in_mps_quantizers)', 'MPSAdd (torch.vmap path is opaque)',
+        not_decided=['which quantizer feeds which layer over ALL architectures (register_in_mps_quantizers runs from source only on the enumerated models of contracts/whole_mps.py, with '
+                     'concrete weights)', 'MPSAdd value-level clauses',
                      'mpic / ne16 cost specs through the MPS layers (their own clauses are under C16)'],
         assumptions=['layer sizes 2..3 channels, 1x1 kernels (the formulas are products; nothing depends on the size)'],
     ),
@@ -222,7 +223,8 @@ PROPERTY = {
         explanation='per layer (as the statement restricts: per-layer search): eval-mode MPSConv2d/MPSConv1d/MPSLinear/MPSIdentity forward == forward '
                     'of the Quant* layer that export() builds, for all real weights, inputs, clip values and coefficients without ties, 1..3 candidate '
                     'precisions; exported precisions == summary()',
-        not_decided=['the input-quantizer wiring across layers (register_in_mps_quantizers, shared quantizers): torch.fx graph pass',
+        not_decided=['the input-quantizer wiring across layers over ALL architectures: decided for the enumerated models of contracts/whole_mps.py only (real convert(), every combination '
+                     'of selected precisions, CONCRETE weights and input - a bounded stand-in in topology and values)',
                      'BatchNorm folding before conversion (its algebra is under C07)', 'MPSAdd', 'float32 rounding (A-real): "bit-identical" is shown as '
                      'equality of the same real-valued terms, which are computed by the same torch kernels in the same order'],
         assumptions=['the producer of the layer input has sampled the shared input quantizer in the same (eval) forward pass'],
